@@ -137,6 +137,21 @@ def rule_flow(ctx):
                         continue
                     ok, how = sanitised(body, b, K, T, self_name)
                     ctx.check(R, key, ok, "%s.%s %s" % (v, f, how), site(SSR, arm))
+                    # .. and no way through the arm returns a node without it: every Ok(..) of the arm is built from
+                    # the field (directly, or from what the remover made of it)
+                    reach_f = alias_closure(body, b)
+                    dropped = []
+                    for okn in [c_ for c_ in walk(body) if c_["k"] == "Call" and render(c_["func"]) == "Ok" and c_["args"]]:
+                        names_ = {p_["path"] for p_ in walk(okn["args"][0]) if p_["k"] == "Path"}
+                        if names_ & reach_f or scr in names_:
+                            continue  # built from the field, or the node is returned whole
+                        if fname == "remove_tuples_from_statement" and any(c_[0] == "if" and not c_[2] and render(c_[1]).replace(" ", "") in ('(var=="_")',) for c_ in (conditions_to(body, okn) or [])) is False and any(c_[0] == "if" and c_[2] and render(c_[1]).replace(" ", "") == '(var=="_")' for c_ in (conditions_to(body, okn) or [])):
+                            continue  # reviewed: `_ = e` is dropped by the LAST stage only, after the anonymous-component stage extracted every input
+                        dropped.append(render(okn)[:70])
+                    if dropped:
+                        ctx.bad(R, key + "/kept-on-every-path", "a result of the arm is built without `%s` (%s): what the field held (e.g. a `<--` input of an anonymous component) disappears from the program" % (f, dropped[:2]), site(SSR, arm))
+                    else:
+                        ctx.ok(R, key + "/kept-on-every-path", "", site(SSR, arm))
                 for f in stf:
                     n += 1
                     key = "%s/%s.%s" % (fname, v, f)
